@@ -2,13 +2,14 @@
 # tools/seed_matrix.sh [prefix] [ids...]  run every seed of seeded/<prefix>-Cxx (default: agent and agent2)
 # against its property's check; print a detection table and refresh detected_by/signatures in meta.json.
 cd /verif
-prefixes="agent agent2"
-case "${1:-}" in agent|agent2|agent3|agent4) prefixes=$1; shift;; esac
+prefixes="agent agent2 agent3 agent4 agent5 agent6"
+case "${1:-}" in agent|agent2|agent3|agent4|agent5|agent6) prefixes=$1; shift;; esac
 for pre in $prefixes; do
 for d in seeded/$pre-C*; do
   [ -d "$d" ] || continue
   id=$(basename $d | sed "s/$pre-//")
   [ -n "${1:-}" ] && [[ ! " $* " =~ " $id " ]] && continue
+  if grep -q '"status": "obsolete' $d/meta.json 2>/dev/null; then echo "$pre $id OBSOLETE (see meta.json)"; continue; fi
   r=$(tools/selftest.sh $d/patch.diff $id quick 2>&1)
   if echo "$r" | grep -q "exit=1"; then s=DETECTED; else s=MISSED; fi
   sigs=$(echo "$r" | grep -o "signature: [^ ]*" | sed 's/signature: //' | grep -v "^$" | head -3)
